@@ -6,7 +6,9 @@ from fractions import Fraction
 import core
 import gen
 
-PROOF_MODULES = ["UnytProofs.C05"]
+import c05_worlds
+
+PROOF_MODULES = ["UnytProofs.C05", "UnytProofs.C05Div", "UnytProofs.C05Paths"]
 
 
 def kind(u):
@@ -47,7 +49,7 @@ def run(tier, seed):
     import unyt.dimensions as D
 
     chk = core.Check("C05", tier, seed)
-    chk.proof = core.prove("C05", PROOF_MODULES, tier=tier)
+    chk.proof = core.prove("C05", PROOF_MODULES, extra_targets=("unytmodel", "drv_c05"), tier=tier)
     rng = chk.rng
     ex = gen.extract()
     atoms = list(ex["lut"].keys())
@@ -144,6 +146,26 @@ def run(tier, seed):
             r = try_(lambda: u * u ** -1)
             if r[0] != "ok" or not (r[1].is_dimensionless and r[1].expr == 1 and math.isclose(r[1].base_value, 1.0, rel_tol=1e-12)):
                 chk.fail(f"inverse|{k}", "u * u**-1 is not the dimensionless unit", {"python": snippet(hdr + "p = u*u**-1\nassert p.is_dimensionless and p.expr == 1 and math.isclose(p.base_value, 1.0, rel_tol=1e-12), p\n")})
+        # u**1 is u (offset included), u**0 is the dimensionless unit (offset units included; a logarithmic unit refuses)
+        r = try_(lambda: u ** 1)
+        if r[0] != "ok" or not (same_unit(r[1], u) and r[1].base_offset == u.base_offset and r[1].base_value == u.base_value):
+            chk.fail(f"pow-one|{k}", "u**1 is not u", {"python": snippet(hdr + "p = u**1\nassert p == u and p.expr == u.expr and p.base_offset == u.base_offset and p.base_value == u.base_value, (p, p.base_offset)\n")})
+        if k != "log":
+            r = try_(lambda: u ** 0)
+            if r[0] != "ok" or not (r[1].is_dimensionless and r[1].expr == 1 and r[1].base_value == 1.0 and r[1].base_offset == 0):
+                chk.fail(f"pow-zero|{k}", "u**0 is not the dimensionless unit", {"python": snippet(hdr + "p = u**0\nassert p.is_dimensionless and p.expr == 1 and p.base_value == 1.0 and p.base_offset == 0, p\n")})
+        # __pow__ on every kind of unit (offset and logarithmic ones refuse most exponents): the regenerated program
+        if True:
+            for q in (Fraction(0), Fraction(1), Fraction(2), Fraction(-1), Fraction(1, 2)):
+                try:
+                    fu = gen.unit_wire_fields(u)
+                except ValueError:
+                    break
+                rq = try_(lambda: u ** sympy.Rational(q.numerator, q.denominator))
+                if rq[0] == "ok" and not finite(rq[1]):
+                    continue
+                model_lines.append("\t".join(["c05.upow"] + fu + [gen.rat_str(q)]))
+                model_expect.append(("c05.upow", a, str(q), rq))
         # same expression, same registry state => equal hash and ==
         try:
             v = Unit(str(u.expr), registry=u.registry)
@@ -179,6 +201,12 @@ def run(tier, seed):
                 except Exception as e:  # noqa: BLE001
                     ok = False
                 ok = ok and math.isclose(cf * cu.base_value, u.base_value, rel_tol=1e-9) and cu.dimensions == u.dimensions
+                if ok:
+                    try:
+                        model_lines.append("\t".join(["c05.ascoeff"] + gen.unit_wire_fields(sv)))
+                        model_expect.append(("c05.ascoeff", a + ".simplify()", "", ("ok", (cf, cu))))
+                    except ValueError:
+                        pass
                 if not ok:
                     chk.fail(f"simplify|{pool[a][0]}", "simplify()/as_coeff_unit() changed what the unit denotes",
                              {"python": snippet(hdr + "w = Unit(u.expr, registry=u.registry); s = w.simplify(); r = Unit(s.expr, registry=u.registry); c, cu = s.as_coeff_unit()\n"
@@ -263,18 +291,37 @@ def run(tier, seed):
         chk.case(("eq", x, y))
         if not (Unit(x) == Unit(y)):
             chk.fail("eq-spelling", f"{x} != {y}", {"python": snippet(f"assert Unit({x!r}) == Unit({y!r})\n")})
+    # ---------------------------------------------------------------- same spelling, different stored data (histories)
+    c05_worlds.run_worlds(chk, 4 if tier == "quick" else 40, model_lines, model_expect)
     # ---------------------------------------------------------------- model correspondence
+    # every mul/div/pow case is run twice: through the hand-written model (`UnitV.mul/div/pow`, what the laws are proved
+    # about) and through the program regenerated from the live source (`c05.*`, proved equal to it in C05Paths.lean)
+    dup = [("c05." + ln, ("c05." + ex_[0],) + tuple(ex_[1:])) for ln, ex_ in zip(model_lines, model_expect) if ex_[0] in ("umul", "udiv", "upow", "ueq")]
+    model_lines += [d[0] for d in dup]
+    model_expect += [d[1] for d in dup]
     try:
-        replies = core.Model().ask(model_lines)
+        replies = core.Model("drv_c05").ask(model_lines)
     except Exception as e:  # noqa: BLE001
         replies = []
         chk.disagree("driver", repr(e))
     for rep, (op, a, b, real) in zip(replies, model_expect):
         chk.count("model:" + op)
-        if op == "ueq":
+        if op in ("ueq", "c05.ueq"):
             want = "1" if (real[0] == "ok" and real[1]) else "0"
             if rep[0] != "ok" or rep[1] != want:
                 chk.disagree(op, f"{a} == {b}: model {rep} implementation {real}")
+            continue
+        if op == "c05.ascoeff":
+            cf, cu = real[1]
+            try:
+                want = gen.unit_wire_fields(cu)
+            except ValueError:
+                continue
+            ok = (rep[0] == "ok" and len(rep) >= 7 and core.close(core.b2f(rep[6]), cf, 1e-12) and core.close(core.b2f(rep[1]), cu.base_value, 1e-9)
+                  and core.close(core.b2f(rep[2]), cu.base_offset) and rep[3] == want[2]
+                  and gen.parse_factors(rep[5]) == gen.parse_factors(want[4]) and core.close(core.b2f(rep[4]), core.b2f(want[3]), 1e-9))
+            if not ok:
+                chk.disagree(op, f"{a}: model {rep[1:]} implementation coeff {cf!r} unit {want}")
             continue
         if real[0] == "err":
             if rep[0] != "err" or rep[1] != real[1]:
